@@ -71,7 +71,8 @@ Definition known_bad (o : op) (p : path) : bool :=
   | Op_tracked_method_new_func => has_write (p_pre p)   (* the in-place change is applied before _attr_changed_'s guard *)
   | _ => false
   end.
-(* SetInstance.is_empty / create and Entity.flush were in this list until /repo 743d82e gave them the liveness guard *)
+(* SetInstance.is_empty / create and Entity.flush were in this list until /repo 743d82e gave them the liveness guard; the readers
+   that go through Set.copy were in it between /repo 50e342a (unguarded rentity._load_many_) and 233f906 *)
 
 Definition row_ok (r : op * list path) : bool :=
   forallb (fun p => known_bad (fst r) p || path_guarded p) (snd r).
